@@ -6,10 +6,13 @@ import (
 	"errors"
 	"fmt"
 	"io"
+	"net"
+	"os"
 	"strconv"
 	"strings"
 	"sync"
 	"sync/atomic"
+	"syscall"
 	"time"
 
 	"google.golang.org/grpc/metadata"
@@ -53,6 +56,10 @@ var c09ErrVals = []c09ErrVal{
 	{"io.EOF", io.EOF},
 	{"wrapped io.EOF", fmt.Errorf("wrapped: %w", io.EOF)},
 	{"io.ErrUnexpectedEOF", io.ErrUnexpectedEOF},
+	// what a dead TCP peer / an expired read deadline looks like: errors of the "timeout" class
+	{"net.OpError ETIMEDOUT", &net.OpError{Op: "read", Net: "tcp", Err: syscall.ETIMEDOUT}},
+	{"os.ErrDeadlineExceeded", os.ErrDeadlineExceeded},
+	{"context.DeadlineExceeded", context.DeadlineExceeded},
 }
 
 // c09SaysEOF: would a caller take this RecvMsg result for the successful end of the stream?
